@@ -131,7 +131,7 @@ def _replay_uhf(o, what):
         import jax.numpy as jnp
         from ad_afqmc import wavefunctions as wf
         rng = np.random.default_rng(11)
-        n, a, b, g = 4, 2, 1, 2
+        n, a, b, g = 5, 3, 2, 2
         trial = wf.uhf(n, (a, b))
         h1 = rng.normal(size=(2, n, n)); h1 = h1 + h1.transpose(0, 2, 1)
         L = rng.normal(size=(g, n, n)); L = L + L.transpose(0, 2, 1)
@@ -600,7 +600,7 @@ def _replay_noci(o, what):
         import jax.numpy as jnp
         from ad_afqmc import wavefunctions as wf
         rng = np.random.default_rng(14)
-        n, a, b, g, d = 4, 2, 1, 2, 3
+        n, a, b, g, d = 4, 2, 2, 2, 3        # two electrons per spin: transpositions inside an occupied block are visible
         trial = wf.noci(n, (a, b), d)
         h1 = rng.normal(size=(2, n, n)); h1 = h1 + h1.transpose(0, 2, 1)
         L = rng.normal(size=(g, n, n)); L = L + L.transpose(0, 2, 1)
